@@ -27,7 +27,8 @@ CONSTANTS TPS,        \* ticks per second
 VARIABLES clock, file, resp, last, steps, used
 vars == <<clock, file, resp, last, steps, used>>
 
-Forms == {"etag", "weak", "listFirst", "listLast", "weakListLast", "star", "lm", "both", "bothRev", "staleEtag", "weakFirstThenTag"}
+Forms == {"etag", "weak", "listFirst", "listLast", "weakListLast", "star", "lm", "both", "bothRev", "staleEtag", "weakFirstThenTag", "listTwoLines"}
+\* ("listTwoLines": the list sent as two If-None-Match header lines - the same list by RFC 7230 3.2.2)
 \* ("bothRev": the same two validators with the date header first - header order must not matter)
 Sec(t) == t \div TPS
 
@@ -72,6 +73,7 @@ TagsSent(j, f) ==
     [] f = "listLast" -> <<<<0, 0>>, resp[j].tag>>
     [] f = "weakListLast" -> <<<<0, 0>>, resp[j].tag>>
     [] f = "weakFirstThenTag" -> <<<<0, 0>>, resp[j].tag>>
+    [] f = "listTwoLines" -> <<resp[j].tag, <<0, 0>>>>
     [] f = "both" -> <<resp[j].tag>>
     [] f = "bothRev" -> <<resp[j].tag>>
     [] f = "staleEtag" -> <<<<0, 0>>>>
